@@ -65,7 +65,51 @@ impl Prop for TextForms {
             Kind::Time => "time",
             Kind::DateTime => "datetime",
         });
+        // The text forms go through format/parse with fixed patterns. What they return may not depend
+        // on what was asked before: in one case out of three the other two types are first formatted
+        // and parsed with this type's Display / FromStr patterns (and serialised), before every step.
+        let interfere = (c.v.ns as u64 ^ (c.v.day as u64).wrapping_mul(3) ^ c.off as u64) % 3 == 0;
+        if interfere {
+            cx.label("other_types_used_with_the_same_patterns_first");
+        }
+        let prelude = || {
+            if !interfere {
+                return;
+            }
+            let _ = catch(|| {
+                let d = mk_date(c.v.day);
+                let t = mk_time(c.v.ns as u64).set_offset(Offset::Fixed(if c.kind == Kind::Date { 3_600 } else { c.off }));
+                let dt = mk_dt(c.v.i());
+                for p in ["yyyy/MM/dd", "HH:mm:ss", "yyyy/MM/dd HH:mm:ss", "yyyy-MM-dd"] {
+                    if c.kind != Kind::Date {
+                        let x = d.format(p);
+                        let _ = Date::parse(&x, p);
+                    }
+                    if c.kind != Kind::Time {
+                        let x = t.format(p);
+                        let _ = Time::parse(&x, p);
+                    }
+                    if c.kind != Kind::DateTime {
+                        let x = dt.format(p);
+                        let _ = DateTime::parse(&x, p);
+                    }
+                }
+                if c.kind != Kind::Date {
+                    let _ = d.to_string();
+                    let _ = serde_json::to_string(&d);
+                }
+                if c.kind != Kind::Time {
+                    let _ = t.to_string();
+                    let _ = serde_json::to_string(&t);
+                }
+                if c.kind != Kind::DateTime {
+                    let _ = dt.to_string();
+                    let _ = serde_json::to_string(&dt).ok().and_then(|j| serde_json::from_str::<DateTime>(&j).ok());
+                }
+            });
+        };
         // --- Display ---
+        prelude();
         let want_display = fmt::render(&fmt::tokenize(c.kind, &pat(c.kind, '/')), &f, c.off).unwrap();
         let disp = match c.kind {
             Kind::Date => catch(|| mk_date(c.v.day).to_string()),
@@ -81,6 +125,7 @@ impl Prop for TextForms {
             }
         }
         // --- FromStr on model-generated text ---
+        prelude();
         match c.kind {
             Kind::Date => {
                 let text = fmt::render(&fmt::tokenize(Kind::Date, "yyyy-MM-dd"), &f, 0).unwrap();
@@ -122,6 +167,7 @@ impl Prop for TextForms {
             return Verdict::Pass;
         }
         cx.label("serde_roundtrip");
+        prelude();
         match c.kind {
             Kind::Date => {
                 let r = catch(|| {
